@@ -60,6 +60,16 @@ def run(ctx):
         (t_send if wt else s_send).append(g)
     ref_s = vlib.run_replay(ref_bin, s_send, "C13-ref-score")
     ref_t = vlib.run_replay(ref_bin, t_send, "C13-ref-tags")
+    # model files must survive every build: read_slice + to_vec reproduces the bytes (tag models included)
+    import json, os
+    from props import C07
+    canon_models = [{"model": C07.wide_model()}] + [{"model": h["preds"][0]["model"]} for h in tag_h[:: max(1, len(tag_h) // 6)][:6]]
+    cpath = os.path.join(vlib.WORK, "record", "C13-canon-models.ndjson")
+    os.makedirs(os.path.dirname(cpath), exist_ok=True)
+    with open(cpath, "w") as f:
+        for m in canon_models:
+            f.write(json.dumps(m) + "\n")
+    canon_events = []
     events = []
     meta = {}
     blist = builds(ctx.quick)
@@ -81,6 +91,13 @@ def run(ctx):
         os.makedirs(os.path.dirname(keep), exist_ok=True)
         shutil.copy2(binp, keep)
         vlib._built.pop((("dev", "vph", tuple(fs), "matrix", tool, None, True)), None)
+        cout = os.path.join(vlib.WORK, "record", f"C13-canon-{tag}.ndjson")
+        vlib.run_harness(keep, ["canon", cpath, cout], name="canon")
+        for line in open(cout):
+            e = json.loads(line)
+            e["id"] = len(canon_events)
+            e["build"] = tag
+            canon_events.append(e)
         obs_s = vlib.run_replay(keep, s_send, f"C13-{tag}-score")
         sets = [(s_send, ref_s, obs_s)]
         if "tag-prediction" in fs:
@@ -98,6 +115,13 @@ def run(ctx):
                 if "steps" in x and any(isinstance(s["proj"], dict) and len(set(s["proj"].get("scores") or [])) > 1 for s in x["steps"]):
                     ctx.nontriv((tag, d["id"]))
         ctx.add_part(build=tag, toolchain=tool or "default", histories=sum(len(s[0]) for s in sets))
+    crej, _ = vlib.validate_trace(ctx, "C13-canon", "Trace_Files", canon_events, constants={"Hdr": 25})
+    for rid in crej:
+        e = canon_events[rid]
+        ctx.violation(f"C13:{e['build']}:canon:{e['file']}", f"build [{e['build']}]: reading a model file and serialising it again gives outcome "
+                      f"{e['outcome']} / different bytes ({e['len']} -> {len(e['reser'])} bytes)", {"kind": "canon", "build": e["build"]},
+                      cls=f"C13:{e['build']}:canon")
+    ctx.evaluations += len(canon_events)
     rej, _ = vlib.validate_trace(ctx, "C13-pairs", "Trace_Pair", events, chunk=2500)
     for rid in rej:
         tag, d = meta[rid]
